@@ -12,7 +12,7 @@ from __future__ import annotations
 import ast
 
 from .. import q
-from ..cfg import must_facts
+from ..cfg import must_facts, holds
 from ..rules import event_facts, call_sites
 from ..mutate import mutate, remove_stmts, replace_stmt, replace_expr, parse_stmt, parse_expr
 from ..model import AnalysisError
@@ -42,13 +42,28 @@ def _indenting_replace(e):
     return b.value.startswith("\n") and len(rest) >= 1 and rest.strip(" \t") == ""
 
 
+def _indenting(e):
+    return _indenting_replace(e) or _indenting_join(e)
+
+
+def _indenting_join(e):
+    """e is `("\n" + blanks).join(<x>.split("\n"))` / `.splitlines()`: every line break is re-created with indentation."""
+    if not (isinstance(e, ast.Call) and isinstance(e.func, ast.Attribute) and e.func.attr == "join" and isinstance(e.func.value, ast.Constant) and isinstance(e.func.value.value, str) and len(e.args) == 1):
+        return False
+    sep = e.func.value.value
+    if not (sep.startswith("\n") and len(sep) > 1 and sep[1:].strip(" \t") == ""):
+        return False
+    a = e.args[0]
+    return isinstance(a, ast.Call) and isinstance(a.func, ast.Attribute) and ((a.func.attr == "split" and len(a.args) == 1 and q.is_const(a.args[0], "\n")) or (a.func.attr == "splitlines" and not a.args))
+
+
 def rule_indent(ck, fi):
     cfg = fi.cfg
     rets = cfg.stmt_nodes(lambda n: n.kind == "stmt" and isinstance(n.ast, ast.Return))
     ck.floor("C45.indent-return", len(rets), 1, "return statements in format")
 
     def gen(n):
-        if n.kind == "stmt" and isinstance(n.ast, (ast.Assign, ast.AnnAssign)) and n.ast.value is not None and _indenting_replace(n.ast.value):
+        if n.kind == "stmt" and isinstance(n.ast, (ast.Assign, ast.AnnAssign)) and n.ast.value is not None and _indenting(n.ast.value):
             return [("@indented:" + p, True) for p in q.assigned_paths(n.ast)]
         return []
 
@@ -65,13 +80,16 @@ def rule_indent(ck, fi):
         return False
 
     facts = must_facts(cfg, gen_node=gen, kill_node=kill, cond_facts=False)
+    cfacts = must_facts(cfg)
     for r in rets:
         v = r.ast.value
         ok = False
-        if v is not None and _indenting_replace(v):
+        if v is not None and _indenting(v):
             ok = True
         elif isinstance(v, ast.Name) and ("@indented:" + v.id, True) in facts[r.id]:
             ok = True
+        elif isinstance(v, ast.Name) and holds(cfacts[r.id], "'\\n' in %s" % v.id, False):
+            ok = True  # fast path: the text is known to contain no newline at all
         ck.ob("C45.indent-return", fi, r.ast, ok,
               "the returned text is the result of .replace('\\n', '\\n' + indentation) with nothing appended afterwards (a newline in message or traceback cannot start a new entry)")
     if cfg.pred[cfg.exit.id]:
@@ -187,6 +205,8 @@ def _getmessage_outside_try(root):
 
 
 MUTANTS = [
+    ("seeded C45-adv1: handler narrowed to (TypeError, ValueError)", _m(replace_expr(lambda n: isinstance(n, ast.ExceptHandler), lambda n: ast.ExceptHandler(type=parse_expr("(TypeError, ValueError)"), name=n.name, body=n.body))), "C45.message-guard"),
+    ("fast path returns early when the *message* has no newline (traceback still appended later is skipped / unindented)", _m(replace_stmt(lambda st: isinstance(st, ast.Assign) and _src(st).startswith("formatted = self._fmt"), lambda st: [st, parse_stmt("if '\\n' not in record.message and not record.exc_info:\n    return formatted")])), "C45.indent-return"),
     ("return the text without indenting newlines", _m(replace_stmt(lambda st: isinstance(st, ast.Return), lambda st: [parse_stmt("return formatted")])), "C45.indent-return"),
     ("handler narrowed to TypeError", _m(replace_expr(lambda n: isinstance(n, ast.ExceptHandler), lambda n: ast.ExceptHandler(type=ast.Name(id="TypeError", ctx=ast.Load()), name=n.name, body=n.body))), "C45.message-guard"),
     ("newlines indented before the traceback is appended", _m(_replace_before_traceback), "C45.indent-return"),
